@@ -1,6 +1,6 @@
 (* Comparison of results modulo HashMap iteration order, and the decidable program classes the
    correspondence judges (Corr/C01,C02,C04,C05,C07) share.  Definitions only. *)
-From Coq Require Import List ZArith Bool Arith.
+From Coq Require Import List ZArith Bool Arith String.
 From IB Require Import Util.J Engine.Val Engine.Ops Engine.Nodes Engine.Exec Engine.Planner Engine.Lang
      Engine.Denote Engine.Decode.
 Import ListNotations.
@@ -284,3 +284,35 @@ Definition is_try (st : step) : bool := match st with STryMap _ _ => true | _ =>
 Definition try_only_last (steps : list step) : bool := negb (existsb is_try (removelast steps)).
 Definition ends_in_try (steps : list step) : bool :=
   match last_step steps with Some (STryMap _ _) => true | _ => false end.
+
+(* collect_fail_fast, with the element whose error is reported: the harness's try_map error
+   message carries the element, and ["err","fail_fast", v] names it *)
+Inductive ff_obs := FFOk (payloads : list val) | FFErr (elem : val) | FFOther (o : obs).
+Definition dec_ff (j : J) : option ff_obs :=
+  match j with
+  | JL [JS t; JS c; jv] =>
+      if tag_is t "err"%string && tag_is c "fail_fast"%string then option_map FFErr (dec_val jv) else None
+  | _ => match dec_obs j with
+         | Some (OOk rows) => Some (FFOk rows)
+         | Some o => Some (FFOther o)
+         | None => None
+         end
+  end.
+(* what collect_fail_fast must return given the rows that reach the try_map: the FIRST row (in
+   order) failing p is the one reported; otherwise the payloads f x in order *)
+Definition ff_expected (input : obs) (f : efun) (p : pfun) : ff_obs :=
+  match input with
+  | OOk xs =>
+      match find (fun x => negb (pf p x)) xs with
+      | Some x => FFErr x
+      | None => FFOk (map (ef f) xs)
+      end
+  | o => FFOther o
+  end.
+Definition ff_eqb (a b : ff_obs) : bool :=
+  match a, b with
+  | FFOk x, FFOk y => rows_eqb x y
+  | FFErr x, FFErr y => val_eqb x y
+  | FFOther x, FFOther y => obs_agree CExact x y
+  | _, _ => false
+  end.
